@@ -36,3 +36,12 @@ package main
 //@     err == errFormattingDiffers)
 //@ ensures [dump-iff] implies(err == nil && evCompare == old(evCompare) + 1,
 //@     evStdoutWrite - old(evStdoutWrite) == ite(list.val == "false" && !write.val && !diff.val, 1, 0))
+
+// propsOptions must compute every option from the EditorConfig section alone, so that formatting a file does
+// not depend on which files were formatted before it in the same invocation (the modes-agree clause of C36
+// for the one option kept in a global).
+//@ func propsOptions
+//@ props C36
+//@ nosafety
+//@ stable simplify
+//@ ensures [simplify-from-props-only] simplify.val == (sectionGet(props, "minify") == "true" || sectionGet(props, "simplify") == "true")
